@@ -1,7 +1,6 @@
 package main
 
 import (
-	"strconv"
 	"fmt"
 	"go/ast"
 	"go/constant"
@@ -9,6 +8,7 @@ import (
 	"go/types"
 	"math/big"
 	"sort"
+	"strconv"
 	"strings"
 
 	"golang.org/x/tools/go/packages"
@@ -501,6 +501,27 @@ func (e *Engine) execAssign(x *ast.AssignStmt, st *State) {
 				e.assignTo(x.Lhs[1], VTerm{T: okT, Typ: types.Typ[types.Bool]}, st)
 				return
 			}
+		}
+		if ta, ok := ast.Unparen(x.Rhs[0]).(*ast.TypeAssertExpr); ok && len(x.Lhs) == 2 && ta.Type != nil {
+			// v, ok := x.(T) never panics: ok is the dynamic-type test, v the T held by x when ok and T's zero value otherwise
+			if xv, isT := e.eval(ta.X, st).(VTerm); isT && xv.T.Sort == SRef {
+				to := e.typeOf(ta.Type)
+				if _, isIface := to.Underlying().(*types.Interface); !isIface {
+					tn := sanitize(to.String())
+					okT := mkApp("dyn_is_"+tn, SBool, xv.T)
+					so := e.sortOf(to)
+					held := xv.T
+					if so != SRef {
+						held = mkApp("dyn_as_"+tn+"__"+sortTag(so), so, xv.T)
+					}
+					if zv, isZ := e.zeroValue(to).(VTerm); isZ {
+						e.assignTo(x.Lhs[0], e.wrap(mkIte(okT, held, zv.T), to), st)
+						e.assignTo(x.Lhs[1], VTerm{T: okT, Typ: types.Typ[types.Bool]}, st)
+						return
+					}
+				}
+			}
+			unsup("type assertion at %s", e.src(x))
 		}
 		v := e.eval(x.Rhs[0], st)
 		tup, ok := v.(VTuple)
